@@ -283,6 +283,12 @@ NOT_COVERED = ["that token source slices are in bounds (premise in_src) comes fr
                "(library serialisers trusted; compared end to end by the same bounded check)",
                "human-readable output (OutputStreamFormatter.format_violation) is string formatting of line_no / line_pos"]
 MUTANTS = [
+    # seed C23_C: newline table built with str.splitlines (also breaks on U+2028, FF, VT, NEL, FS/GS/RS, U+2029)
+    ("newline_table_from_splitlines", "sqlfluff/core/templaters/base.py",
+     "    init_idx = -1\n    while True:\n        nl_pos = raw_str.find(\"\\n\", init_idx + 1)\n        if nl_pos >= 0:\n            yield nl_pos\n"
+     "            init_idx = nl_pos\n        else:\n            break  # pragma: no cover TODO?\n",
+     "    pos = 0\n    lines = raw_str.splitlines(keepends=True)\n    for line in lines[:-1]:\n        pos += len(line)\n        yield pos - 1\n"
+     "    if lines and lines[-1] != lines[-1].rstrip(\"\\n\"):\n        yield pos + len(lines[-1]) - 1\n"),
     ("dict_end_uses_start", "sqlfluff/core/templaters/base.py", "stop = self.get_line_pos_of_char_pos(source_slice.stop, source=True)", "stop = self.get_line_pos_of_char_pos(source_slice.start, source=True)"),
     ("dict_templated_space", "sqlfluff/core/templaters/base.py", "start = self.get_line_pos_of_char_pos(source_slice.start, source=True)", "start = self.get_line_pos_of_char_pos(source_slice.start, source=False)"),
     ("marker_uses_templated_slice", "sqlfluff/core/parser/markers.py", "            self.source_slice.start, source=True\n", "            self.templated_slice.start, source=True\n"),
